@@ -9,6 +9,10 @@ from vlib import Check, HarnessError, target, build, run_shards
 
 # ------------------------------------------------------------------------------------------ targets
 target("rc_probe", ["probes/rc_probe.cpp"])
+target("valid_probe", ["probes/valid_probe.cpp", "ref/refcodec.cpp"])
+target("codec_probe", ["probes/codec_probe.cpp", "ref/refcodec.cpp", "common/assert_handler.cpp"])
+target("pid_probe", ["probes/pid_probe.cpp", "common/assert_handler.cpp"])
+target("mutex_probe", ["probes/mutex_probe.cpp", "common/assert_handler.cpp"])
 
 ALL_TARGETS = lambda: list(vlib.TARGETS.keys())
 
@@ -49,7 +53,114 @@ def c20(tier, seed):
     return ck.finish()
 
 
-CHECKS = {"C20": c20}
+def _probe_part(ck, name, tier, seed, rule, shards=16, timeout=1800, extra=()):
+    exe = build([name])[name]
+    d = _tmp(ck.prop + "-" + name)
+    res = run_shards(exe, ["--tier", tier] + list(extra), shards, seed, timeout, d)
+    ck.add_results(name, res, rule)
+    shutil.rmtree(d, ignore_errors=True)
+
+
+# ------------------------------------------------------------------------------------------ C16
+def c16(tier, seed):
+    ck = Check("C16", tier, seed, "exploration")
+    _probe_part(ck, "valid_probe", tier, seed,
+                "validate_mqtt_utf8 / validate_topic_name / validate_topic_alias_name / validate_topic_filter / "
+                "validate_shared_topic_filter vs a reference recogniser written from Unicode table 3-7 and MQTT 5 1.5.4/4.7: "
+                "every byte string of length <= %d (alone and, up to 2 bytes, inside a topic level), the canonical encoding of every "
+                "scalar value, every lead byte x second byte x boundary continuation bytes, lengths around 65535, seeded "
+                "compositions of / + # $share and UTF-8 fragments. distinct_nontrivial = enumerated inputs that are not "
+                "plain alphanumeric ASCII (short family) + code-point encodings longer than the short family + verdict classes"
+                % (3 if tier == "thorough" else 2))
+    ck.assumptions += ["reference recogniser (src/ref/refcodec.cpp: utf8_class, topic_name_ok, topic_filter_ok, shared_filter_ok) is the MQTT 5 rule",
+                       "control characters and non-characters count as not well-formed, as the property statement says",
+                       "don't-care: payloads flagged as UTF-8, $share filters given to unsubscribe"]
+    ck.require("valid_probe.class_UNFs")
+    ck.require("valid_probe.class_unfs")
+    return ck.finish()
+
+
+# ------------------------------------------------------------------------------------------ C08
+def c08(tier, seed):
+    ck = Check("C08", tier, seed, "exploration")
+    _probe_part(ck, "pid_probe", tier, seed,
+                "packet_id_allocator vs a bitset model: all sequences over {allocate, free oldest, free newest, free middle} up to "
+                "length %d from 7 small pre-filled states, all sequences up to length %d from 65533/65534/65535 ids in use, "
+                "exhaustion + release in 5 orders + re-exhaustion, long random walks; oracle after every step: never 0 unless "
+                "65535 in use, never an id in use, every freed id allocatable again. distinct_nontrivial = distinct abstract "
+                "allocator states reached (ids in use + occupancy of the first/last 64 ids)" % ((11, 5) if tier == "thorough" else (9, 3)))
+    ck.assumptions += ["unit level only in this round: uniqueness among live client exchanges is decided by the simulator part of this check when present"]
+    ck.require("pid_probe.overruns")
+    ck.require("pid_probe.exhaustion_runs")
+    return ck.finish()
+
+
+# ------------------------------------------------------------------------------------------ C11
+def c11(tier, seed):
+    ck = Check("C11", tier, seed, "exploration")
+    _probe_part(ck, "mutex_probe", tier, seed,
+                "async_mutex on a manually polled io_context vs a FIFO model: all sequences up to length %d over {lock, lock with "
+                "cancellation slot, unlock by holder, signal oldest / newest slot, cancel(), run one handler, run all}, plus seeded "
+                "longer sequences; oracle: success only for the waiter the model made pending, never two holders, "
+                "operation_aborted only for cancelled waiters, exactly one completion each (also after destruction), none inside "
+                "an initiating call, is_locked() equals the model. distinct_nontrivial = distinct model-state trajectories"
+                % (8 if tier == "thorough" else 6))
+    ck.require("mutex_probe.grants")
+    ck.require("mutex_probe.aborts")
+    return ck.finish()
+
+
+# ------------------------------------------------------------------------------------------ C17 / C18 / C19
+def c17(tier, seed):
+    ck = Check("C17", tier, seed, "exploration")
+    _probe_part(ck, "codec_probe", tier, seed,
+                "library encoders (CONNECT, PUBLISH, PUBACK, PUBREC, PUBREL, PUBCOMP, SUBSCRIBE, UNSUBSCRIBE, PINGREQ, DISCONNECT, AUTH) "
+                "fed with generated arguments: every present/absent subset of each type's properties (incl. Will properties), "
+                "strings of length 0/1/127/128/16383/16384/65535, payloads across variable-byte-integer boundaries, up to 300 user "
+                "properties, up to 2000 topics; oracle: independent decoder accepts, consumes exactly Remaining Length, flags and "
+                "property placement legal, decoded fields == supplied values. distinct_nontrivial = distinct packet shapes "
+                "(type, property-presence mask, QoS/DUP/retain/will flags, size class of Remaining Length, list-size class)",
+                extra=["--mode", "c17"])
+    ck.assumptions += ["reference codec src/ref/refcodec.cpp (written from the OASIS text, no boost/mqtt5 include) is the MQTT 5 rule",
+                       "binary fields above 65535 bytes are outside the quantifier"]
+    ck.require("codec_probe.presence_subsets")
+    return ck.finish()
+
+
+def c18(tier, seed):
+    ck = Check("C18", tier, seed, "exploration")
+    _probe_part(ck, "codec_probe", tier, seed,
+                "reference encoder -> library decoders (decode_fixed_header + the per-type decoders exactly as the client calls "
+                "them) -> equal fields -> library encoder -> reference decoder -> equal contents, for CONNACK, PUBLISH, PUBACK, "
+                "PUBREC, PUBREL, PUBCOMP, SUBACK, UNSUBACK, DISCONNECT, AUTH: every property-presence subset per type (2^17 for "
+                "CONNACK), every short form, repeated User Properties, several Subscription Identifiers, boundary sizes. "
+                "distinct_nontrivial = distinct packet shapes as for C17",
+                extra=["--mode", "c18"])
+    ck.assumptions += ["reference codec is self-checked on every generated packet (encode then decode must be the identity), a failed self-check is a harness error"]
+    ck.require("codec_probe.presence_subsets")
+    ck.require("codec_probe.short_forms")
+    return ck.finish()
+
+
+def c19(tier, seed):
+    ck = Check("C19", tier, seed, "exploration")
+    _probe_part(ck, "codec_probe", tier, seed,
+                "server packets with every length-bearing field (Remaining Length, Property Length, every string/binary length, "
+                "every variable byte integer) set to 0,1,2,true-1,true+1,true+2,127,128,16383,16384,max-1,max; every truncation of "
+                "the body; byte-level mutations; random bytes - decoded by the library's decoders with the packet body ending "
+                "at a PROT_NONE page. Oracles: no fault / sanitizer report; structurally broken packets (truncated fields, property "
+                "length beyond the packet, unknown or misplaced property) are rejected; packets the reference accepts decode to "
+                "the same contents. distinct_nontrivial = distinct (control byte, library verdict, reference verdict + error class)",
+                extra=["--mode", "c19"])
+    ck.assumptions += ["don't-care (no verdict): duplicate single-valued properties, non-minimal variable byte integers, ill-formed UTF-8 in "
+                       "received strings, reserved flag bits, packet id 0, trailing bytes after the property list, absent Property Length",
+                       "unit level only in this round: framing, handshake and whole-client behaviour under hostile bytes are decided by the simulator part when present"]
+    ck.require("codec_probe.length_field_mutations")
+    ck.require("codec_probe.lib_rejected")
+    return ck.finish()
+
+
+CHECKS = {"C17": c17, "C18": c18, "C19": c19, "C20": c20, "C16": c16, "C08": c08, "C11": c11}
 
 
 def run(prop, tier, seed):
